@@ -54,6 +54,18 @@ CLAIMS = {
          "Proved (regenerated arithmetic): the number of bitmap pages is ceil((n-2)/4064) and covers exactly blocks 2..n-1; device classification by size; floppy and partition block ranges, and that mount recomputes the range used at creation. Decided per geometry (not a theorem): the whole round trip - format, close, mount - for DD/HD floppies x 8 flavour bytes, hardfile sizes around every multiple of 4064 (+-3), odd and even, around 25/26 bitmap pages (thorough: every size 3521..12300 and windows up to 30 and beyond 152 pages), RDB tables with 1..4 partitions of random geometry, volume-name lengths 0..40: name, flavour, range, empty root (hash table and cache listing), free count = size - boot - root - pages - extension blocks - cache block, and the raw image judged by the extracted decoder.",
          "Round trip: enumeration over geometries with the Coq decoder as judge; closed-form theorems for the arithmetic only. adfCreateVol/adfWriteNewBitmap themselves are not modelled.",
          "geometry enumeration judged by the Coq decoder + Coq proof of regenerated size arithmetic", "DESIGN.md section 5 C14"),
+ "C06": ("exploration",
+         "The independent decoder is Spec/Decode.v (Coq, extracted; its offsets/constants proved equal to the library's compiled layout in C03, its hash proved equal to the library's in C15). Images come from an independent writer (checks/mkimage.py: random/reversed/interleaved placement, shuffled hash chains, garbage in free blocks, Latin-1 names, hard links to files and directories, cache blocks split at random, files of 0..145 blocks) and from AmigaDOS (regtests/Dumps). For each image the decoder first confirms well-formedness; then ADFlib's listings (hash tables and cache), metadata, link resolution and reads at random (offset,length) incl. EOF are compared with the decoder's tree and bytes.",
+         "Per explored image. Soft links are listed, not followed.",
+         "differential exploration against an independent decoder written in Coq", "DESIGN.md section 5 C06"),
+ "C10": ("exploration",
+         "Memory safety of compiled C on corrupted input is outside what a Gallina model can exhibit (DESIGN.md section 11); the logic part that is proved: any block number taken from an image is passed to the device only inside the volume (regenerated guard, C13) - and the cache record length arithmetic (C07). Decided per explored image: every metadata field of every reached metadata block of well-formed base images (independent writer; OFS/FFS, with/without cache, extension blocks, nested dirs, hard links) overwritten with boundary values, checksum repaired or not; mount, listings with and without cache, lookups, link resolution, open/seek/read run under AddressSanitizer(+bounds) with a read budget; plus the corrupt dump shipped with the repository.",
+         "Partial by nature: sanitizer-judged exploration; theorems cover block-number range checking only.",
+         "field-mutation exploration under AddressSanitizer + Coq proof of the range guard", "DESIGN.md section 5 C10, section 11"),
+ "C11": ("exploration",
+         "Proved: the counting fact behind every bounded walk added to the library - pairwise distinct in-range blocks number at most n, so a step budget of n is never exhausted by a cycle-free chain and always by a cycle. Decided per explored image: each pointer field (hash slots, nextSameHash, extension, nextDirC, parent, firstData, nextData, realEntry, bitmap pointers) of each metadata block redirected to itself / its predecessor / the root / another block, singly and in pairs, and cyclic PART/FSHD/LSEG lists; the read-only API runs with a budget of 3*volume+200 device reads per call and a wall-clock alarm.",
+         "Termination of the C loops: per explored image with an explicit read budget; the theorem justifies the budget, it is not about the C code.",
+         "pointer-redirect exploration with a read budget + Coq pigeonhole bound", "DESIGN.md section 5 C11"),
 }
 
 def main():
